@@ -152,19 +152,29 @@ static void joiner_fn(void *arg)
 {
     joiner *j = (joiner *)arg;
     if (j->many && j->ntargets >= 2) {
-        ABT_thread hs[MAXT];
-        for (int k = 0; k < j->ntargets; k++)
-            hs[k] = S.T[j->targets[k]].th;
+        /* the list may contain null handles: they are skipped */
+        ABT_thread hs[2 * MAXT + 1];
+        int at[MAXT], n = 0;
+        for (int k = 0; k < j->ntargets; k++) {
+            if (sim_rand_n(SIM_RS_CHAOS, 3) == 0)
+                hs[n++] = ABT_THREAD_NULL;
+            at[k] = n;
+            hs[n++] = S.T[j->targets[k]].th;
+        }
+        if (sim_rand_n(SIM_RS_CHAOS, 3) == 0)
+            hs[n++] = ABT_THREAD_NULL;
         if (j->many == 1) {
-            ABT_OK(ABT_thread_join_many(j->ntargets, hs));
+            ABT_OK(ABT_thread_join_many(n, hs));
             for (int k = 0; k < j->ntargets; k++) {
                 check_joined(&S.T[j->targets[k]], "ABT_thread_join_many");
                 check_state_terminated(&S.T[j->targets[k]], "ABT_thread_join_many");
             }
         }
-        ABT_OK(ABT_thread_free_many(j->ntargets, hs));
-        for (int k = 0; k < j->ntargets; k++) {
+        ABT_OK(ABT_thread_free_many(n, hs));
+        for (int k = 0; k < n; k++)
             SIM_CHECK(hs[k] == ABT_THREAD_NULL, "join:handle-not-null", "ABT_thread_free_many left handle %d non-NULL", k);
+        for (int k = 0; k < j->ntargets; k++) {
+            (void)at[k];
             S.T[j->targets[k]].th = ABT_THREAD_NULL;
             if (j->many != 1)
                 check_joined(&S.T[j->targets[k]], "ABT_thread_free_many");
